@@ -331,8 +331,71 @@ class SolverIR:
     def run_method(self, cls, meth, args=None):
         self.install_subscript()
         m = self.model.member(cls, meth)
-        outs = self.sx.run(desugar_list_loops(m.node), m.module, cls, None, args)
+        self.sx.fn_transform = normalise_loops
+        outs = self.sx.run(m.node, m.module, cls, None, args)
         return m, outs
+
+
+def normalise_loops(fn):
+    return desugar_counting_while(desugar_list_loops(fn))
+
+
+def desugar_counting_while(fn):
+    """`k = a` ... `while k <= b: body; k += 1`  ->  `for k in range(a, b + 1): body`  (also `<`, and `k = k + 1`), when k is
+    assigned nowhere else in the loop, the increment is the last statement of the body and the body has no `continue`
+    (which would skip the increment) - the same iteration space spelled with a counter."""
+    import copy
+
+    def increment_of(stmt):
+        if isinstance(stmt, ast.AugAssign) and isinstance(stmt.op, ast.Add) and isinstance(stmt.target, ast.Name) \
+                and isinstance(stmt.value, ast.Constant) and stmt.value.value == 1:
+            return stmt.target.id
+        if isinstance(stmt, ast.Assign) and len(stmt.targets) == 1 and isinstance(stmt.targets[0], ast.Name) \
+                and isinstance(stmt.value, ast.BinOp) and isinstance(stmt.value.op, ast.Add) \
+                and isinstance(stmt.value.left, ast.Name) and stmt.value.left.id == stmt.targets[0].id \
+                and isinstance(stmt.value.right, ast.Constant) and stmt.value.right.value == 1:
+            return stmt.targets[0].id
+        return None
+
+    def rewrite_block(stmts):
+        out = []
+        changed = False
+        for s_ in stmts:
+            for field in ('body', 'orelse', 'finalbody'):
+                if hasattr(s_, field) and isinstance(getattr(s_, field), list) and not isinstance(s_, (ast.FunctionDef, ast.ClassDef)):
+                    nb, ch = rewrite_block(getattr(s_, field))
+                    if ch:
+                        setattr(s_, field, nb)
+                        changed = True
+            if isinstance(s_, ast.While) and not s_.orelse and s_.body and isinstance(s_.test, ast.Compare) and len(s_.test.ops) == 1 \
+                    and isinstance(s_.test.ops[0], (ast.LtE, ast.Lt)) and isinstance(s_.test.left, ast.Name):
+                k = s_.test.left.id
+                body = s_.body
+                if increment_of(body[-1]) == k and out and isinstance(out[-1], ast.Assign) and len(out[-1].targets) == 1 \
+                        and isinstance(out[-1].targets[0], ast.Name) and out[-1].targets[0].id == k:
+                    inner = body[:-1]
+                    clean = not any(isinstance(x, ast.Continue) for b_ in inner for x in ast.walk(b_)) and \
+                        not any(isinstance(x, ast.Name) and x.id == k and isinstance(x.ctx, ast.Store) for b_ in inner for x in ast.walk(b_)) and \
+                        not any(isinstance(x, ast.Name) and x.id == k for x in ast.walk(s_.test.comparators[0]))
+                    if clean:
+                        start = out.pop().value
+                        stop = s_.test.comparators[0]
+                        if isinstance(s_.test.ops[0], ast.LtE):
+                            stop = ast.BinOp(left=stop, op=ast.Add(), right=ast.Constant(1))
+                        new = ast.For(target=ast.Name(k, ast.Store()), iter=ast.Call(func=ast.Name('range', ast.Load()), args=[start, stop], keywords=[]),
+                                      body=inner or [ast.Pass()], orelse=[], type_comment=None)
+                        out.append(ast.fix_missing_locations(ast.copy_location(new, s_)))
+                        changed = True
+                        continue
+            out.append(s_)
+        return out, changed
+    fn2 = copy.deepcopy(fn)
+    nb, ch = rewrite_block(fn2.body)
+    if not ch:
+        return fn
+    fn2.body = nb
+    ast.fix_missing_locations(fn2)
+    return fn2
 
 
 def desugar_list_loops(fn):
